@@ -11,7 +11,7 @@ MODULE = 'Ndt.Props.C04Multi'
 THEOREMS = ['Ndt.hessian_fdel_symmetric', 'Ndt.hessFlat_symmetric', 'Ndt.hessForward_quadratic', 'Ndt.hessForward_quadratic_diag',
             'Ndt.hessCentral_quadratic', 'Ndt.hessCentral_quadratic_diag', 'Ndt.hessCentral2_quadratic', 'Ndt.quadratic_form_along',
             'Ndt.bestEstimate_equal_columns', 'Ndt.hessian_constant_table', 'Ndt.hessdiag_exact',
-            'Ndt.hessComplex_quadratic', 'Ndt.phi_bcMPoly', 'Ndt.hessMulticomplex_quadratic', 'Ndt.hessian_complex_not_high_order']
+            'Ndt.hessComplex_quadratic', 'Ndt.phi_bcMPoly', 'Ndt.hessMulticomplex_quadratic', 'Ndt.hessian_complex_not_high_order', 'Ndt.hessdiag_exact_complex']
 METHODS = ['central', 'central2', 'forward', 'backward', 'complex', 'multicomplex']
 
 
